@@ -106,7 +106,7 @@ RULE = ('seeded counts are quick / thorough (one number: both tiers) and are mul
         'the correspondence broke, no oracle failure yet): all kinds but hexrt and roman regenerated at scale 4, oracle '
         'only, stops at the first failure.  Non-trivial = every distinct case of every kind but misc (no weights: a case '
         'counts once), which includes the correspondence-only kinds hex / base / arabic, CEILING/FLOOR with significance '
-        '0 and calls that did not return.')
+        '0 and calls that did not return. Route cell: every thirteenth rounding / CEILING-FLOOR / INT-EVEN-ODD-SIGN / QUOTIENT-MOD case, and every second one with a zero among its arguments, once more as the formula NAME(A1,B1,...) over cells answered by the host\'s callCellValue listener (a zero is a number, not a blank; an error entry of the record is taken as that error value): judged by the same oracle and compared with the same model answer.')
 TRUSTED = ['Python float arithmetic is modelled by exact rational arithmetic (results compared within 4 ulp; where an argument '
            'is a float and the scaled value within 2^-48 (relative) of an integer, ROUNDUP/ROUNDDOWN/CEILING/FLOOR/QUOTIENT '
            'may land one unit from the model\'s result, MOD within 8 ulp of it or one divisor away; for ROUNDUP/ROUNDDOWN this excuse '
@@ -209,12 +209,33 @@ W = 1 << 40
 _p = [None]
 
 
+_cellvals = {}
+CELL_NAMES = ['A1', 'B1', 'C1', 'D1']
+
+
 def parser():
     if _p[0] is None:
         common.load_repo()
         import hotxlfp
         _p[0] = hotxlfp.Parser()
+        # route cell: the arguments as values of the cells A1.. answered by the host's listener (0, 0.0 and FALSE are values)
+        _p[0].on('callCellValue', lambda cell, setter: setter(_cellvals.get(cell.label)))
     return _p[0]
+
+
+def call_cells(name, args):
+    """the call written as a formula over cells; -> the value, the error value, or HANG"""
+    p = parser()
+    _cellvals.clear()
+    for lab, a in zip(CELL_NAMES, args):
+        _cellvals[lab] = dec_arg(a)
+    st, rec = budgeted(lambda: p.parse('%s(%s)' % (name, ','.join(CELL_NAMES[:len(args)]))))
+    if st == 'hang':
+        return HANG
+    if rec['error'] is not None:
+        from hotxlfp.formulas import error
+        return error.from_message(rec['error'])
+    return rec['result']
 
 
 class StepBudgetExceeded(BaseException):
@@ -363,6 +384,8 @@ def impl(c):
         if st == 'hang':
             return {'result': None, 'error': 'does not return (budget exceeded)'}
         return r
+    if c.get('via') == 'cell':
+        return call_cells(c['fn'], c['args'])
     return call(c['fn'], c['args'], traced=c['fn'] in TRACED or bool(c.get('guarded')))
 
 
@@ -1143,7 +1166,15 @@ def cases(rng, ctx):
         add('misc', 'DEC2HEX', a, b)
     for a, b, pl in [(255, 16, '4'), (255, 16, 'x'), (255, 16, None), (255, 16, True), (255, 1, -1), (0, 2, 8), (0, 2, -1), (255, 16, 1), (255, 16, 2.5)]:
         add('misc', 'BASE', a, b, pl)
-    return out
+    # route cell: the same calls with their arguments as values of cells answered by the host's listener - every thirteenth
+    # rounding / ceiling / unary / division case, and every second one with a zero or FALSE among its arguments
+    routed = []
+    for i, c in enumerate(out):
+        if c['kind'] in ('round', 'cf', 'unary', 'div') and 1 <= len(c.get('args', [])) <= 4 and not c.get('guarded'):
+            zero = any(isinstance(a, (int, float)) and a == 0 for a in c['args'])
+            if i % 13 == 0 or (zero and i % 2 == 0):
+                routed.append(dict(c, via='cell'))
+    return out + routed
 
 
 FACT300 = _dfact(300)
